@@ -42,6 +42,9 @@ CHECKS = {
  "C12": ("fault_enumeration", "count of Backend.Publish calls with the will's content on behalf of the dying client after its Closed() fired, cross-checked with online, offline-persistent and late (retained) observers behind marker fences",
          "full matrix of 19 termination causes x 5 protocol states (applicable pairs) x will QoS 0-2 x retain = 390 scenarios, 3 (quick) / 40 (thorough) repetitions for schedule diversity",
          "DISCONNECT racing with another cause is judged by what the broker logged as received; a processor blocked on a token ends at the token timeout", "2-C12"),
+ "C13": ("exploration", "online assertions at the backend boundary (Setup return: no other set-up client of the id without Terminate; CONNACK pre-send: every older client of the id terminated), PINGREQ liveness probe (exactly one survivor), session-present replay in recorded Setup order, Terminate counts, displaced will count, VerifSnapshot bookkeeping, no-loss/no-second-new-delivery for persistent parties, goroutine-profile stuck detector, race detector",
+         "1200 (quick) / 25000 (thorough) rounds of 2-8 simultaneous CONNECTs with one id (clean/unclean mixed) against an absent / idle / mid-handshake / concurrently dying old connection with concurrent QoS 1 traffic and backend-boundary perturbation; 2-6 blocked-in-send rounds (known finding)",
+         "schedules are those the Go scheduler produces under perturbation (evidence counts distinct Setup orders); the blocked-in-send deadlock is a recorded known finding", "2-C13"),
 }
 NOT_APPLICABLE = {}
 def main():
